@@ -177,6 +177,15 @@ def rows(F, R):
                         R.ob('C14.rows-exec', okg, {'row': inst, 'tag': tag, 'guard_called': bool(g), 'action_called': bool(a)})
                         if not okg:
                             R.find('C14.rows-exec', f, 'tag-mismatch:' + str(tag), 'front-end row tagged %s (guard=%s, action=%s) but the executor calls guard=%s action=%s' % (tag, hasG, hasA, bool(g), bool(a)), instance=inst)
+                    # the completion hook of the target state runs only after the target has been entered
+                    pn = f.path_nodes(p)
+                    hooks = [x for x in pn if f.nodes[x] and f.nodes[x]['k'] == 'call' and f.nodes[x].get('n') == 'on_state_entry_completed']
+                    if hooks:
+                        ents = [e[1] for e in ev if e[0] == 'ENTRY']
+                        okh = bool(ents) and all(pn.index(h) > pn.index(ents[-1]) for h in hooks)
+                        R.ob('C10.first', okh, {'func': f.q, 'completion_hook_after_entry': okh})
+                        if not okh:
+                            R.find('C10.first', f, 'hook-before-entry', 'the completion occurrence of the target state is queued before the target\'s entry has run: if the entry throws, the completion transition of a state that was never entered still fires', where=f.at(hooks[0]), instance=inst)
                     okr = retn is not None and value_handled(F, E, f, f.nodes[retn]['e'])
                     R.ob('C06.row-result', okr, {'func': f.q, 'path': 'taken', 'returns': retv})
                     if not okr:
